@@ -16,8 +16,8 @@ Import ListNotations.
    reverse connections, any client bytes; both list-handling variants.  [proved c]: the response
    read from the client is the DES encryption of the challenge sent to it under a password that
    was configured on its screen at the moment of the check (ghost c_pws, see C05_password_snapshot). *)
-Theorem C05_sound : forall single ext ops c s,
-  let p := run (cfgF single ext) proc_init ops in
+Theorem C05_sound : forall single ext tight ops c s,
+  let p := run (cfgF single ext tight) proc_init ops in
   In c (p_conns p) -> nth_error (p_screens p) (c_screen c) = Some s ->
   protected s c = true -> granted c = true -> proved c.
 Proof. exact sound_fixed. Qed.
@@ -29,38 +29,38 @@ Proof. exact on_response_snapshot. Qed.
 
 (* ---- completeness under arbitrary activity of other connections, screens AND of the application
    (registering / unregistering handlers of any non-built-in type between the client's messages) *)
-Theorem C05_complete : forall single ext p0 s scr pw ver mi tr1 tr2 tr3 b,
+Theorem C05_complete : forall single ext tight p0 s scr pw ver mi tr1 tr2 tr3 b,
   acyc (p_hs p0) = true -> ext_ok ext -> nth_error (p_screens p0) s = Some scr -> has_password scr = true ->
   In pw (screen_passwords scr) ->
   length ver = 12%nat -> parse_version ver = Some (c05_rfbProtocolMajorVersion, mi) -> (7 <= mi)%Z ->
   let ci := length (p_conns p0) in
   forallb (foreign ci s) tr1 = true -> forallb (foreign ci s) tr2 = true -> forallb (foreign ci s) tr3 = true ->
-  let p1 := step (cfgF single ext) p0 (OConn s false ver false) in
-  let p2 := run (cfgF single ext) p1 tr1 in
+  let p1 := step (cfgF single ext tight) p0 (OConn s false ver false) in
+  let p2 := run (cfgF single ext tight) p1 tr1 in
   let ch := fst (take_rand (p_rand p2) 16) in
-  let p3 := step (cfgF single ext) p2 (OSend ci [zbyte c05_rfbSecTypeVncAuth] false) in
-  let p4 := run (cfgF single ext) p3 tr2 in
+  let p3 := step (cfgF single ext tight) p2 (OSend ci [zbyte c05_rfbSecTypeVncAuth] false) in
+  let p4 := run (cfgF single ext tight) p3 tr2 in
   forall r, vnc_encrypt pw ch = Some r ->
-  let p5 := step (cfgF single ext) p4 (OSend ci r false) in
-  let p6 := run (cfgF single ext) p5 tr3 in
-  let p7 := step (cfgF single ext) p6 (OSend ci [b] false) in
+  let p5 := step (cfgF single ext tight) p4 (OSend ci r false) in
+  let p6 := run (cfgF single ext tight) p5 tr3 in
+  let p7 := step (cfgF single ext tight) p6 (OSend ci [b] false) in
   exists c tl, nth_error (p_conns p7) ci = Some c /\ c_st c = StNormal /\ In c05_rfbSecTypeVncAuth tl /\
     c_out c = server_version ++ (N.of_nat (length tl) :: map zbyte tl) ++ ch ++ auth_ok ++ server_init scr.
 Proof. exact complete_fixed. Qed.
 
-Theorem C05_complete_33 : forall single ext p0 s scr pw ver mi tr2 tr3 b,
+Theorem C05_complete_33 : forall single ext tight p0 s scr pw ver mi tr2 tr3 b,
   acyc (p_hs p0) = true -> nth_error (p_screens p0) s = Some scr -> has_password scr = true ->
   In pw (screen_passwords scr) ->
   length ver = 12%nat -> parse_version ver = Some (c05_rfbProtocolMajorVersion, mi) -> (mi < 7)%Z ->
   let ci := length (p_conns p0) in
   forallb (foreign ci s) tr2 = true -> forallb (foreign ci s) tr3 = true ->
   let ch := fst (take_rand (p_rand p0) 16) in
-  let p3 := step (cfgF single ext) p0 (OConn s false ver false) in
-  let p4 := run (cfgF single ext) p3 tr2 in
+  let p3 := step (cfgF single ext tight) p0 (OConn s false ver false) in
+  let p4 := run (cfgF single ext tight) p3 tr2 in
   forall r, vnc_encrypt pw ch = Some r ->
-  let p5 := step (cfgF single ext) p4 (OSend ci r false) in
-  let p6 := run (cfgF single ext) p5 tr3 in
-  let p7 := step (cfgF single ext) p6 (OSend ci [b] false) in
+  let p5 := step (cfgF single ext tight) p4 (OSend ci r false) in
+  let p6 := run (cfgF single ext tight) p5 tr3 in
+  let p7 := step (cfgF single ext tight) p6 (OSend ci [b] false) in
   exists c, nth_error (p_conns p7) ci = Some c /\ c_st c = StNormal /\
             c_out c = server_version ++ be32 (Z.to_N c05_rfbSecTypeVncAuth) ++ ch ++ auth_ok ++ server_init scr.
 Proof. exact complete_fixed_33. Qed.
@@ -95,11 +95,11 @@ Theorem C05_deliver_fuel_suffices : forall extra cf p ci buf eof,
 Proof. exact deliver_fuel_suffices. Qed.
 
 (* ---- view-only passwords: any list, authPasswdFirstViewOnly at any position *)
-Theorem C05_viewonly : forall single ext p ci c scr pws fvo r i,
+Theorem C05_viewonly : forall single ext tight p ci c scr pws fvo r i,
   nth_error (p_conns p) ci = Some c -> nth_error (p_screens p) (c_screen c) = Some scr ->
   s_pw scr = PwList pws fvo -> c_st c = StAuth -> c_vo c = false -> length r = 16%nat ->
-  check_list (cfgF single ext) pws (c_chal c) r 0 = Some i ->
-  let p' := step (cfgF single ext) p (OSend ci r false) in
+  check_list (cfgF single ext tight) pws (c_chal c) r 0 = Some i ->
+  let p' := step (cfgF single ext tight) p (OSend ci r false) in
   exists c', nth_error (p_conns p') ci = Some c' /\ c_st c' = StInit /\ c_vo c' = (fvo <=? i)%Z.
 Proof. exact viewonly_fixed. Qed.
 
@@ -121,17 +121,17 @@ Theorem C05_versions_33 : forall cf scr e c ver mi,
        c_out c' = c_out c ++ be32 (Z.to_N c05_rfbSecTypeVncAuth) ++ fst (take_rand (e_rand e) 16)).
 Proof. exact versions_33. Qed.
 
-Theorem C05_versions_37 : forall single ext scr e c ver mi,
+Theorem C05_versions_37 : forall single ext tight scr e c ver mi,
   c_st c = StPV -> parse_version ver = Some (c05_rfbProtocolMajorVersion, mi) -> (7 <= mi)%Z ->
   acyc (e_hs e) = true -> length ext = 4%nat ->
-  exists e' c' tl, on_message (cfgF single ext) scr e c ver = (e', c', false) /\ c_minor c' = mi /\ c_st c' = StSec /\
+  exists e' c' tl, on_message (cfgF single ext tight) scr e c ver = (e', c', false) /\ c_minor c' = mi /\ c_st c' = StSec /\
     In (primary_type scr c) tl /\ c_out c' = c_out c ++ N.of_nat (length tl) :: map zbyte tl.
 Proof. exact versions_37. Qed.
 
-Theorem C05_versions_failure : forall single ext scr e c r,
+Theorem C05_versions_failure : forall single ext tight scr e c r,
   c_st c = StAuth -> length (c_chal c) = 16%nat ->
   (forall pw, In pw (screen_passwords scr) -> vnc_encrypt pw (c_chal c) <> Some r) ->
-  exists c', on_message (cfgF single ext) scr e c r = (e, c', false) /\ c_st c' = StClosed /\
+  exists c', on_message (cfgF single ext tight) scr e c r = (e, c', false) /\ c_st c' = StClosed /\
     c_out c' = c_out c ++ auth_failed ++
                (if (7 <? c_minor c)%Z then be32 (N.of_nat (length reason_failed)) ++ reason_failed else []).
 Proof. exact versions_failure. Qed.
@@ -179,6 +179,15 @@ Theorem C05_stale_next_remains :
   offered cfg_fixed f1d_app_trace 2 = [2; 16; 2]%N /\ offered cfg_fixed f1d_app_trace 1 = [1; 1]%N /\
   offered cfg_fixed3 f1d_app_trace 2 = [1; 2]%N /\ offered cfg_fixed3 f1d_app_trace 1 = [2; 1; 16]%N.
 Proof. exact stale_next_remains. Qed.
+
+(* ---- the TightVNC security type (nested negotiation) on a protected screen: the not-offered
+   authentication type None is refused, VNC authentication with the right response is let in *)
+Theorem C05_tight_negotiation :
+  map c_st (p_conns (run tight_cfg proc_init (tight_trace [0;0;0;1]%N []))) = [StClosed] /\
+  map c_st (p_conns (run tight_cfg proc_init (tight_trace [0;0;0;2]%N demo_resp))) = [StInit] /\
+  map c_st (p_conns (run tight_cfg proc_init (tight_trace [0;0;0;2]%N demo_chal))) = [StClosed] /\
+  map c_st (p_conns (run tight_cfg proc_init (tight_trace [0;0;0;2]%N []))) = [StClosed].
+Proof. exact tight_negotiation. Qed.
 
 (* ---- reference cipher *)
 Theorem C05_des_known_answers :
